@@ -274,13 +274,13 @@ Qed.
 Lemma astep_closed_same s o : ag_closed s = true -> a_step s o = (s, (RClosed, [])).
 Proof. intros H. unfold a_step. rewrite H. reflexivity. Qed.
 
-Theorem step_sinv fb tid_of c o : sinv c -> sinv (fst (c_step true fb tid_of c o)).
+Lemma step_sinv_base fb tid_of c o : not_race o -> sinv c -> sinv (fst (c_step true fb tid_of c o)).
 Proof.
-  intros S. pose proof S as (Cv & S2 & S3).
+  intros Hnr S. pose proof S as (Cv & S2 & S3).
   destruct (c_closed c) eqn:Hc.
   { (* a closed client: nothing is registered any more, the agent is closed *)
     destruct (S3 eq_refl) as [Sa St].
-    destruct o as [id raw h|raw|d|now|now|r|s| |now|d|fid|sid]; cbn [c_step].
+    destruct o as [id raw h|raw|d|now|now|r|s| |now|d|fid|sid|rid rraw rh]; cbn [c_step]; [| | | | | | | | | | | |destruct Hnr].
     - unfold c_start, c_start_gen. rewrite Hc. exact S.
     - unfold c_start, c_start_gen. rewrite Hc. exact S.
     - unfold c_deliver. destruct (decode _) as [m st]. destruct st as [[]| | |]; try exact S.
@@ -295,7 +295,7 @@ Proof.
     - unfold c_foreign. rewrite (astep_closed_same _ _ Sa). cbn [fst]. apply (closed_sinv_same c); auto.
     - unfold c_app_stop. rewrite (astep_closed_same _ _ Sa). cbn [feed fst]. apply (closed_sinv_same c); auto. }
   specialize (S2 eq_refl).
-  destruct o as [id raw h|raw|d|now|now|r|s| |now|d|fid|sid]; cbn [c_step].
+  destruct o as [id raw h|raw|d|now|now|r|s| |now|d|fid|sid|rid rraw rh]; cbn [c_step]; [| | | | | | | | | | | |destruct Hnr].
   - (* Start *)
     unfold c_start, c_start_gen. rewrite Hc.
     set (t := mkTxn (c_next_inst c) id 0 0 h (c_rto c) raw).
@@ -454,6 +454,36 @@ Proof.
       rewrite H by (right; left; eexists; reflexivity). apply Cv, Hx.
     + intros _. rewrite Hfl. cbn [c_A upd_A]. pose proof (astep_flag (c_A c) (AStopErr sid E_STOPPED)) as H. rewrite Est in H.
       cbn [fst] in H. rewrite H by discriminate. exact S2.
+Qed.
+
+Theorem step_sinv fb tid_of c o : sinv c -> sinv (fst (c_step true fb tid_of c o)).
+Proof.
+  intros S.
+  destruct o as [id raw h|raw|d|now|now|r|s| |now|d|fid|sid|rid rraw rh];
+    try (apply step_sinv_base; [exact I | exact S]).
+  cbn [c_step]. unfold c_start_race.
+  destruct (c_closed c || match T_find rid (c_T c) with Some _ => true | None => false end) eqn:E.
+  - pose proof (step_sinv_base fb tid_of c (CStart rid rraw rh) I S) as S1. cbn [c_step] in S1.
+    destruct (c_start c rid rraw (Some rh)) as [c1 o1]. cbn [fst] in S1.
+    pose proof (step_sinv_base fb tid_of c1 CClose I S1) as S2. cbn [c_step] in S2.
+    destruct (c_close true fb c1) as [c2 o2]. exact S2.
+  - apply orb_false_iff in E as [Ec Ef]. destruct S as (Cv & S2 & S3). specialize (S2 Ec).
+    set (t := mkTxn (c_next_inst c) rid 0 0 rh (c_rto c) rraw).
+    set (c0 := mkClient _ _ _ _ _ _ _ _ _ _ (c_next_inst c + 1)).
+    set (c1 := upd_T c0 (c_T c0 ++ [t])).
+    destruct (close_core_T fb (set_closed c1) eq_refl S2) as (R & Ra & Rc).
+    destruct (c_close_core true fb (set_closed c1)) as [c2 o2]. cbn [fst] in R, Ra, Rc.
+    rewrite (astep_closed_same _ _ Ra). cbn [fst].
+    assert (Hnil : T_remove rid (c_T c2) = []).
+    { destruct (T_remove rid (c_T c2)) as [|x T] eqn:E; [reflexivity|]. exfalso.
+      assert (Hx : In x (T_remove rid (c_T c2))) by (rewrite E; left; reflexivity).
+      apply In_remove in Hx as [Hx Hne].
+      destruct (proj1 (R (t_id x)) (in_map t_id _ _ Hx)) as [H1 H2].
+      cbn [set_closed c_T c_A upd_T c1 c0] in H1, H2. rewrite map_app in H1. apply in_app_or in H1 as [H1|[H1|[]]].
+      - rewrite (Cv _ H1) in H2. discriminate.
+      - cbn [t_id t] in H1. congruence. }
+    unfold sinv, covered. cbn [c_T c_A c_closed upd_T upd_A]. rewrite Hnil, Rc, Ra.
+    repeat split; auto; try discriminate; try (intros x []).
 Qed.
 
 Theorem run_sinv fb tid_of ops : forall c, sinv c -> sinv (fst (c_run true fb tid_of c ops)).
